@@ -167,6 +167,8 @@ def mutated_project(rng, name, base: Project):
     target = base.main if rng.chance(0.7) or len(files) == 1 else rng.choice(sorted(files))
     n = rng.weighted([(1, 6), (2, 3), (3, 2), (5, 1)])
     files[target] = mutate.mutate(rng, files[target], n).replace("@SELF@", base.main).replace("@DIR@", name)
+    if rng.chance(0.08):
+        files[target] = mutate.corrupt_bytes(rng, files[target])  # byte-level: possibly not valid UTF-8
     p = Project(name, files, base.main, "mutated:" + base.origin)
     p.extras = True
     return p
@@ -409,6 +411,9 @@ def gen_plan(seed: int, mode: str, scale: int = 1):
                 # what a reader of the file would hand over: text mode translates \r\n and \r to \n
                 # (keyed parse_string ops must see the same characters as the file-based golden)
                 as_read = p.files[p.main].replace("\r\n", "\n").replace("\r", "\n") if mode == "c18" else p.files[p.main]
+                if any(0xDC80 <= ord(ch) <= 0xDCFF for ch in as_read):
+                    held["nokey"] = True  # undecodable bytes exist only in files; a buffer is always text
+                    as_read = "".join(ch if not (0xDC80 <= ord(ch) <= 0xDCFF) else "\ufffd" for ch in as_read)
                 if with_path and rng.chance(0.35):
                     # the language-server case: an unsaved editor buffer under the file's path
                     # (what is on disk is older); imports still resolve next to the file
